@@ -26,6 +26,7 @@ func corpusJSON() []*modSpec {
 		mk("json-union-behind-pointer", "package models\n\ntype Drawing struct {\n\tName string\n\tTop *Layer\n\tAll []*Layer\n\tByName map[string]*Layer\n}\n",
 			modFile{"layer.go", "package models\n\ntype Shape interface{ isShape() }\ntype Circle struct{ R int }\ntype Square struct{ S int }\n\nfunc (Circle) isShape() {}\nfunc (Square) isShape() {}\n\ntype Layer struct {\n\tContent Shape\n\tZ int\n}\n"}),
 		mk("json-member-through-a-promoted-method", "package models\n\ntype Shape interface{ isShape() }\n\ntype base struct{}\n\nfunc (base) isShape() {}\n\ntype Circle struct {\n\tbase\n\tR int\n}\n\ntype Square struct{ S int }\n\nfunc (Square) isShape() {}\n\ntype Mixin struct{ Tag string }\n\nfunc (Mixin) isShape() {}\n\ntype Label struct {\n\tMixin\n\tText string\n}\n\ntype Drawing struct {\n\tName string `json:\"name\"`\n\tMain Shape\n\tAll []Item\n}\n\ntype Item struct{ S Shape }\n"),
+		mk("json-embedded-struct-reached-through-its-own-union", "package models\n\ntype U interface{ isU() }\n\ntype Leaf struct{ N int }\n\nfunc (Leaf) isU() {}\n\ntype A struct {\n\tX int\n\tV U\n}\n\nfunc (A) isU() {}\n\ntype B struct {\n\tA\n\tY int\n}\n\ntype C struct {\n\tB\n\tZ string `json:\"z\"`\n}\n"),
 		mk("json-no-union", "package models\n\nimport \"time\"\n\ntype E int\n\nconst (\n\tE0 E = iota\n\tE1\n)\n\ntype Date time.Time\n\ntype Plain struct {\n\tA int\n\tB []byte\n\tC map[int]string\n\tD [2]bool\n\tE E\n\tT time.Time\n\tF float64\n\tG []E\n}\n"),
 	}
 }
